@@ -355,6 +355,18 @@ impl Asm {
 
 /// init code that deploys `runtime`: CODECOPY the tail and RETURN it
 pub fn initcode_returning(runtime: &[u8]) -> Vec<u8> {
+    initcode_with_prefix(&[], runtime)
+}
+
+/// `prefix` (constructor body) followed by the CODECOPY/RETURN tail that deploys `runtime`
+pub fn initcode_with_prefix(prefix: &[u8], runtime: &[u8]) -> Vec<u8> {
+    let mut c = prefix.to_vec();
+    let tail = initcode_returning_at(runtime, prefix.len());
+    c.extend(tail);
+    c
+}
+
+fn initcode_returning_at(runtime: &[u8], base: usize) -> Vec<u8> {
     let mut a = Asm::new();
     // PUSH2 len PUSH2 off PUSH1 0 CODECOPY PUSH2 len PUSH1 0 RETURN  (off patched below)
     let len = runtime.len();
@@ -364,7 +376,7 @@ pub fn initcode_returning(runtime: &[u8]) -> Vec<u8> {
     a.op(0x61).ops(&[(len >> 8) as u8, len as u8]);
     a.push_u(0).op(0xf3);
     let mut c = a.finish();
-    let off = c.len();
+    let off = base + c.len();
     c[4] = (off >> 8) as u8;
     c[5] = off as u8;
     c.extend_from_slice(runtime);
@@ -530,9 +542,7 @@ pub fn gen_initcode(rng: &mut Rng, f: &Features, depth: u32) -> Vec<u8> {
         8 => {
             let mut a = Asm::new();
             a.push(word(rng)).push_u(rng.below(3)).op(0x55);
-            let mut c = a.finish();
-            c.extend(initcode_returning(&[0x60, 0x01, 0x60, 0x00, 0x55, 0x00]));
-            c
+            initcode_with_prefix(&a.finish(), &[0x60, 0x01, 0x60, 0x00, 0x55, 0x00])
         }
         9 => vec![],
         10 => vec![0x00],
